@@ -86,6 +86,9 @@ def gen(rng, tier, i):
         sc.rule(ci["name"])
         variant = {"socks5": "5", "socks5p": "5p", "socks5auth": rng.choice(["5", "5p"]), "socks4": "4", "socks4a": "4", "up-socks5": "5"}.get(base)
         creds = ("alice", "s3cret") if base == "socks5auth" else None
+        if base in ("socks4", "socks4a") and rng.random() < 0.5:
+            # a user id with multi-byte characters: a segment boundary can fall inside one of them
+            creds = (rng.choice(["j\u00fcrgen", "\u65e5\u672c", "a\U0001f600b", "\u00e9"]).encode("utf-8"), "")
         target_host = oip if base == "socks4" else host
         tunnels = []
         cuts_desc = []
